@@ -149,4 +149,269 @@ theorem propCon_shr {E D' : Doms} {c : Con} (h : propCon true E c = some D') : S
   | noOverlap _ _ => simp only [propCon, Option.some.injEq] at h; subst h; exact Shr.refl _
   | cumulative _ _ _ _ => simp only [propCon, Option.some.injEq] at h; subst h; exact Shr.refl _
 
+theorem sweep_shr : ∀ (cs : List Con) (E : Doms) (ch : Bool) {D' : Doms} {ch' : Bool},
+    sweep true cs E ch = some (D', ch') → Shr D' E
+  | [], E, ch, D', ch', h => by
+    simp only [sweep, Option.some.injEq, Prod.mk.injEq] at h
+    obtain ⟨rfl, _⟩ := h; exact Shr.refl _
+  | c :: cs, E, ch, D', ch', h => by
+    simp only [sweep] at h
+    split at h
+    · cases h
+    · next D1 h1 =>
+      split at h
+      · cases h
+      · exact (sweep_shr cs D1 _ h).trans (propCon_shr h1)
+
+theorem propagate_shr {cs : List Con} : ∀ (fuel : Nat) (E : Doms) {D' : Doms},
+    propagate true cs fuel E = some D' → Shr D' E
+  | 0, E, D', h => by simp only [propagate, Option.some.injEq] at h; subst h; exact Shr.refl _
+  | fuel + 1, E, D', h => by
+    simp only [propagate] at h
+    split at h
+    · cases h
+    · next D1 ch h1 =>
+      have := sweep_shr cs E false h1
+      split at h
+      · exact (propagate_shr fuel D1 h).trans this
+      · injection h with h; subst h; exact this
+
+/-! ### `pickVar` -/
+
+theorem foldl_pick_none {α} (f : Option Nat → α → Option Nat) (hf : ∀ b p, ∃ v, f b p = some v) :
+    ∀ (l : List α) (b : Option Nat), l.foldl f b = none → l = [] ∧ b = none
+  | [], b, h => ⟨rfl, h⟩
+  | p :: l, b, h => by
+    obtain ⟨v, hv⟩ := hf b p
+    simp only [List.foldl_cons, hv] at h
+    have := (foldl_pick_none f hf l (some v) h).2
+    cases this
+
+theorem dget_eq_of_mem_zipIdx {D : Doms} {p : List Int × Nat} (h : p ∈ D.zipIdx) :
+    p.2 < D.length ∧ dget D p.2 = p.1 := by
+  obtain ⟨d, i⟩ := p
+  have hg : D[i]? = some d := List.mem_zipIdx_iff_getElem?.1 h
+  have hi : i < D.length := by
+    rcases Nat.lt_or_ge i D.length with h | h
+    · exact h
+    · rw [List.getElem?_eq_none h] at hg; cases hg
+  refine ⟨hi, ?_⟩
+  unfold dget; simp [List.getD_eq_getElem?_getD, hg]
+
+theorem pickVar_none {D : Doms} (h : pickVar D = none) : ∀ i, i < D.length → (dget D i).length ≤ 1 := by
+  unfold pickVar at h
+  have := (foldl_pick_none _ (by
+    intro b p
+    cases b with
+    | none => exact ⟨_, rfl⟩
+    | some b => by_cases hc : p.1.length < (dget D b).length <;> simp [hc]) _ none h).1
+  intro i hi
+  rcases Nat.lt_or_ge 1 (dget D i).length with hlt | hle
+  · exfalso
+    have hm : (dget D i, i) ∈ D.zipIdx := by
+      apply List.mem_zipIdx_iff_getElem?.2
+      show D[i]? = some (dget D i)
+      unfold dget; simp [List.getD_eq_getElem?_getD, List.getElem?_eq_getElem hi]
+    have : (dget D i, i) ∈ D.zipIdx.filter fun p => p.1.length > 1 :=
+      List.mem_filter.2 ⟨hm, by simpa using hlt⟩
+    rw [‹List.filter _ D.zipIdx = []›] at this; cases this
+  · exact hle
+
+theorem foldl_pick_some {D : Doms} : ∀ (l : List (List Int × Nat)) (b : Option Nat) (v : Nat),
+    (∀ p ∈ l, p ∈ D.zipIdx ∧ p.1.length > 1) → (∀ w, b = some w → w < D.length ∧ (dget D w).length > 1) →
+    l.foldl (fun best p => match best with
+      | none => some p.2
+      | some b => if p.1.length < (dget D b).length then some p.2 else some b) b = some v →
+    v < D.length ∧ (dget D v).length > 1
+  | [], b, v, _, hb, h => hb v h
+  | p :: l, b, v, hl, hb, h => by
+    simp only [List.foldl_cons] at h
+    refine foldl_pick_some l _ v (fun q hq => hl q (List.mem_cons_of_mem _ hq)) ?_ h
+    intro w hw
+    have hp := hl p List.mem_cons_self
+    have hd := dget_eq_of_mem_zipIdx hp.1
+    have hpw : p.2 < D.length ∧ (dget D p.2).length > 1 := ⟨hd.1, by rw [hd.2]; exact hp.2⟩
+    cases b with
+    | none => simp only [Option.some.injEq] at hw; subst hw; exact hpw
+    | some b0 =>
+      simp only at hw
+      split at hw
+      · simp only [Option.some.injEq] at hw; subst hw; exact hpw
+      · simp only [Option.some.injEq] at hw; subst hw; exact hb _ rfl
+
+theorem pickVar_some {D : Doms} {v : Nat} (h : pickVar D = some v) :
+    v < D.length ∧ (dget D v).length > 1 := by
+  unfold pickVar at h
+  exact foldl_pick_some _ none v (fun p hp => by
+    have := List.mem_filter.1 hp
+    exact ⟨this.1, by simpa using this.2⟩) (fun w hw => by cases hw) h
+
+/-! ### the search finds a solution that lies within the domains -/
+
+/-- `stop` is only set once a solution has been recorded (for `limit ≥ 1`) -/
+def StopOK (st : DfsState) : Prop := st.stop = true → st.sols ≠ []
+
+theorem backtrack_keeps {cs : List Con} {limit : Nat} (hl : 1 ≤ limit) :
+    ∀ (fuel : Nat) (D : Doms) (st : DfsState),
+      (StopOK st → StopOK (backtrack true cs limit fuel D st)) ∧
+      (st.sols ≠ [] → (backtrack true cs limit fuel D st).sols ≠ [])
+  | 0, _, st => by simp [backtrack]
+  | fuel + 1, D, st => by
+    unfold backtrack
+    split
+    · simp only
+      split
+      · exact ⟨id, id⟩
+      · refine ⟨fun _ hstop => ?_, fun hne => ?_⟩
+        · simp only [decide_eq_true_eq] at hstop
+          intro he
+          simp only at he
+          rw [he] at hstop; simp at hstop; omega
+        · simp only
+          split
+          · exact hne
+          · simp
+    · next v _ =>
+      have key : ∀ (s : DfsState) (x : Int),
+          (StopOK s → StopOK (if s.stop = true then s
+            else match propagate true cs (totalSize D + 1) (dset D v [x]) with
+              | none => s
+              | some D' => backtrack true cs limit fuel D' s)) ∧
+          (s.sols ≠ [] → (if s.stop = true then s
+            else match propagate true cs (totalSize D + 1) (dset D v [x]) with
+              | none => s
+              | some D' => backtrack true cs limit fuel D' s).sols ≠ []) := by
+        intro s x
+        split
+        · exact ⟨id, id⟩
+        · split
+          · exact ⟨id, id⟩
+          · exact backtrack_keeps hl fuel _ s
+      exact ⟨fun h => foldl_inv (P := StopOK) _ st h fun s x _ hs => (key s x).1 hs,
+        fun h => foldl_inv (P := fun s : DfsState => s.sols ≠ []) _ st h fun s x _ hs => (key s x).2 hs⟩
+
+theorem leaf_eq {a : Asg} {D : Doms} (h : Within a D) (hs : ∀ i, i < D.length → (dget D i).length ≤ 1) :
+    (D.map fun d => d.headD 0) = a := by
+  apply List.ext_getElem
+  · simp [h.1]
+  · intro i h1 h2
+    have hi : i < D.length := by simpa using h1
+    have hm := h.2 i hi
+    have hlen := hs i hi
+    have hd : dget D i = D[i] := by
+      unfold dget; simp [List.getD_eq_getElem?_getD, List.getElem?_eq_getElem hi]
+    have hv : val a i = a[i] := by
+      unfold val; simp [List.getD_eq_getElem?_getD, List.getElem?_eq_getElem h2]
+    rw [hd] at hm hlen
+    rw [hv] at hm
+    simp only [List.getElem_map]
+    match hD : D[i], hm, hlen with
+    | [y], hm, _ => simpa using (List.mem_singleton.1 hm).symm
+    | _ :: _ :: _, _, hlen => simp at hlen
+
+theorem backtrack_finds {a : Asg} {cs : List Con} {limit : Nat} (hl : 1 ≤ limit)
+    (hall : ∀ c ∈ cs, c.Scoped a.length ∧ Holds a c) :
+    ∀ (fuel : Nat) (D : Doms) (st : DfsState), Within a D → NodupD D → totalSize D < fuel → StopOK st →
+      (backtrack true cs limit fuel D st).sols ≠ []
+  | 0, _, _, _, _, hf, _ => by omega
+  | fuel + 1, D, st, hw, hn, hf, hst => by
+    unfold backtrack
+    split
+    · next hp =>
+      have hleaf := leaf_eq hw (pickVar_none hp)
+      simp only [hleaf]
+      have hchk : cs.all (check a) = true :=
+        List.all_eq_true.2 fun c hc => (check_iff a c).2 (hall c hc).2
+      simp only [hchk, Bool.not_true, Bool.and_false, Bool.false_eq_true, if_false, Bool.true_and]
+      split
+      · next hc =>
+        intro he; rw [he] at hc; simp at hc
+      · simp
+    · next v hp =>
+      have hv := pickVar_some hp
+      have hmem : val a v ∈ dget D v := hw.2 v hv.1
+      obtain ⟨l1, l2, hsplit⟩ := List.append_of_mem hmem
+      rw [hsplit, List.foldl_append, List.foldl_cons]
+      -- the state before the branch `x = a[v]`
+      have hk := fun (s : DfsState) (x : Int) (hs : StopOK s) =>
+        show StopOK (if s.stop = true then s
+            else match propagate true cs (totalSize D + 1) (dset D v [x]) with
+              | none => s
+              | some D' => backtrack true cs limit fuel D' s) from by
+          split
+          · exact hs
+          · split
+            · exact hs
+            · exact (backtrack_keeps hl fuel _ s).1 hs
+      have hs1 : StopOK (l1.foldl (fun st x =>
+          if st.stop = true then st
+          else match propagate true cs (totalSize D + 1) (dset D v [x]) with
+            | none => st
+            | some D' => backtrack true cs limit fuel D' st) st) :=
+        foldl_inv (P := StopOK) l1 st hst fun s x _ hs => hk s x hs
+      -- the branch itself yields a solution
+      apply foldl_inv (P := fun s : DfsState => s.sols ≠ []) l2
+      · split
+        · next hstop => exact hs1 hstop
+        · have hw' : Within a (dset D v [val a v]) := hw.dset fun _ => by simp
+          obtain ⟨D', hp', hw''⟩ := propagate_sound_aux hall (totalSize D + 1) _ hw'
+          rw [hp']
+          have hshr : Shr (dset D v [val a v]) D :=
+            Shr.dset fun _ => ⟨by simp, by have := hv.2; simp; omega⟩
+          have h1 := hshr hn
+          have h2 := propagate_shr _ _ hp' h1.1
+          have hlt : totalSize (dset D v [val a v]) < totalSize D := by
+            have := totalSize_dset D v [val a v] hv.1
+            have := hv.2
+            simp only [List.length_singleton] at *
+            omega
+          exact backtrack_finds hl hall fuel D' _ hw'' h2.1 (by omega) hs1
+      · intro s x _ hs
+        split
+        · exact hs
+        · split
+          · exact hs
+          · exact (backtrack_keeps hl fuel _ s).2 hs
+
+theorem irange_nodup (lb ub : Int) : (irange lb ub).Nodup :=
+  (irange_sorted lb ub).imp (by intro a b h; omega)
+
+theorem within_of_inDom : ∀ {a : Asg} {ds : List VarDecl}, InDom a ds →
+    Within a (ds.map fun d => irange d.lb d.ub)
+  | [], [], _ => ⟨rfl, fun i hi => by simp at hi⟩
+  | x :: a, d :: ds, h => by
+    have ih := within_of_inDom h.2
+    refine ⟨by simpa using ih.1, fun i hi => ?_⟩
+    cases i with
+    | zero => simpa [val, dget] using mem_irange.2 h.1
+    | succ i =>
+      have := ih.2 i (by simpa using hi)
+      simpa [val, dget] using this
+  | [], _ :: _, h => h.elim
+  | _ :: _, [], h => h.elim
+
+theorem initDoms_within {a : Asg} {vars : List VarDecl} (ha : InDom a vars) (hints : List (Nat × Int))
+    (hh : ∀ h ∈ hints, ∀ x ∈ dget (vars.map fun d => irange d.lb d.ub) h.1, x = h.2 → val a h.1 = h.2) :
+    Within a (initDoms vars hints) ∧ NodupD (initDoms vars hints) := by
+  unfold initDoms
+  have h0 : NodupD (vars.map fun d => irange d.lb d.ub) := by
+    intro i
+    unfold dget
+    by_cases hi : i < (vars.map fun d => irange d.lb d.ub).length
+    · simp only [List.getD_eq_getElem?_getD, List.getElem?_eq_getElem hi, Option.getD_some, List.getElem_map]
+      exact irange_nodup _ _
+    · simp [List.getD_eq_getElem?_getD, List.getElem?_eq_none (Nat.le_of_not_lt hi)]
+  refine (foldl_inv (P := fun E => (Within a E ∧ NodupD E) ∧ SubD E (vars.map fun d => irange d.lb d.ub))
+    hints _ ⟨⟨within_of_inDom ha, h0⟩, SubD.refl _⟩ ?_).1
+  intro E h hmem hE
+  split
+  · next hc =>
+    have hin : h.2 ∈ dget E h.1 := by simpa using hc
+    have hv := hh h hmem h.2 (hE.2.2 h.1 h.2 hin) rfl
+    refine ⟨⟨hE.1.1.dset fun _ => by simp [hv], ?_⟩, hE.2.dset fun y hy => ?_⟩
+    · exact ((Shr.dset (E := E) (i := h.1) (l := [h.2]) fun _ =>
+        ⟨by simp, List.length_pos_of_mem hin⟩) hE.1.2).1
+    · rw [List.mem_singleton.1 hy]; exact hE.2.2 h.1 h.2 hin
+  · exact hE
+
 end Solvor.Cp
